@@ -1100,7 +1100,11 @@ def replay(rep):
         restore(d, initial_snapshot(rep["initial_state"]))
         print("initial:", state_str(inspect_dir(d)))
         for seg in rep["segments"]:
-            r = run_segment(d, seg["base"], seg["nsteps"], seg["faults"])
+            try:
+                r = run_segment(d, seg["base"], seg["nsteps"], seg["faults"])
+            except HarnessBug as e:
+                print(f" the recorded fault does not fit the calls this tree makes (replay file from another version of tdmps.py?): {e}")
+                return
             for dd in r["ctl"].dumps:
                 print(f"  dump step {dd['step']} gen {dd['gen']}: before {state_str(dd['pre'])}; executed {dd['executed']}; fault {dd['faulted']}")
             print(f" segment base={seg['base']}: crashed={r['crashed']} error={r['error']} directory={state_str(r['final'])} "
